@@ -143,7 +143,7 @@ fn bdd_answer<'a, B: Robdd<'a>>(b: &'a B, p: BddPtr<'a>, n: usize, q: &Q) -> Str
     }
     let lbls = |v: &Vec<usize>| -> Vec<VarLabel> { v.iter().map(|x| VarLabel::new(*x as u64)).collect() };
     match q {
-        Q::CachedHash => format!("{}", p.cached_semantic_hash(b.order_ref(), &create_semantic_hash_map::<{ primes::U64_LARGEST }>(n))),
+        Q::CachedHash => format!("{}", p.cached_semantic_hash(&b.order_ref(), &create_semantic_hash_map::<{ primes::U64_LARGEST }>(n))),
         Q::MargMap(vs, seed) => {
             let (v, m) = p.marginal_map(&lbls(vs), n, &real_params(n, *seed));
             format!("{:?} {}", v, pm_string(&m, n))
